@@ -7,7 +7,8 @@
 From Coq Require Import Ascii String List NArith.
 Import ListNotations.
 Require Import Laze.model.Base Laze.model.Env Laze.model.Expand Laze.model.Allow Laze.model.Ctx
-        Laze.model.Load Laze.proofs.ExpandFacts Laze.proofs.AllowFacts Laze.proofs.LoadFacts.
+        Laze.model.Load Laze.model.Resolver Laze.model.Checks Laze.proofs.ExpandFacts Laze.proofs.AllowFacts Laze.proofs.LoadFacts
+        Laze.proofs.LoadTotal Laze.proofs.ResolverTotal.
 Open Scope list_scope.
 
 Theorem C15_expand_total : forall (r : fenv) pol f,
@@ -44,3 +45,17 @@ Theorem C15_unknown_context_is_error : forall b m,
   bag_index b (m_context_name m) = None -> add_module b m = Err e_unknown_context.
 Proof. exact unknown_context_rejected. Qed.
 Print Assumptions C15_unknown_context_is_error.
+
+(* the loader's file work-list always finishes within its fuel: a file that includes itself, or files
+   that include each other, cannot make it run forever (every step takes a new file of the tree) *)
+Theorem C15_loader_worklist_terminates : forall (t : ytree) pf,
+  load_files (S (S (length t * 8))) t [(pf, None)] 0 [] <> Fuel.
+Proof. exact loader_worklist_terminates. Qed.
+Print Assumptions C15_loader_worklist_terminates.
+
+(* the dependency resolver always finishes within its fuel *)
+Theorem C15_resolver_terminates : forall b builder bname binary cli_selects disabled0,
+  keys_okb b = true -> In (m_name binary) (map m_name (all_modules b)) ->
+  resolve_build b builder bname binary cli_selects disabled0 <> Fuel.
+Proof. exact resolve_build_terminates. Qed.
+Print Assumptions C15_resolver_terminates.
